@@ -300,6 +300,12 @@ func TestVerif_C15_Sim(t *testing.T) {
 	// third sharp driver: export policy switched between "accept all" and "reject community", soft reset out
 	// and ROUTE-REFRESH from the receiver: what a refresh hands over must be remembered as sent
 	simExplore(t, r, simExploreCfg{Scenario: "softreset", Arg: "cfg=ee;npfx=1;nvar=2;src=0;pols=02;noflap;noapi;nopeers;exportonly", Depth: deep + 2, Budget: budget})
+	// fourth sharp driver: ADD-PATH receivers whose prefix is exactly AT the send-max limit (one source and send-max 1;
+	// two sources and send-max 2), export policy switched between "accept all" and "set MED", soft reset out and
+	// ROUTE-REFRESH: the paths already advertised must be re-sent with the changed attributes although there is no
+	// room for a further path
+	simExplore(t, r, simExploreCfg{Scenario: "softreset", Arg: "cfg=eA;npfx=1;nvar=1;src=0;pols=03;noflap;noapi;nopeers;exportonly", Depth: deep, Budget: budget})
+	simExplore(t, r, simExploreCfg{Scenario: "softreset", Arg: "cfg=eea;npfx=1;nvar=1;src=01;pols=03;nowd;noflap;noapi;nopeers;exportonly;norr", Depth: deep, Budget: budget})
 	for _, k := range []string{"import-policy-rejects-a-route", "import-policy-modifies-a-route", "export-policy-rejects-a-route", "export-policy-modifies-a-route"} {
 		if r.Outcomes[k] == 0 && len(r.Violations) == 0 {
 			t.Fatalf("ENGINE-ERROR vacuous exploration: no state in which %s: %v", k, r.Outcomes)
